@@ -308,6 +308,16 @@ example : (chunksOf 2 [[1, 2], [], [3], [4, 5, 6], [7]]).length = 3 ∧
     mergeSparse ((chunksOf 2 [[1, 2], [], [3], [4, 5, 6], [7]]).map lookupToSparse)
       = ([0, 2, 2, 3, 6, 7], [1, 2, 3, 4, 5, 6, 7]) := by decide +kernel
 
+/-- "for a pair of leaf clusters": the tables have one row per pair of `itertools.combinations`
+of the sorted leaves — for distinct sorted leaves every unordered pair occurs exactly once, as
+`(a, b)` with `a < b`, and there are `n (n-1) / 2` rows. -/
+theorem pairs_exact (leaves : List Nat) (hs : leaves.Pairwise (· < ·)) :
+    (combos2 leaves).Nodup ∧ (∀ a b, (a, b) ∈ combos2 leaves ↔ a ∈ leaves ∧ b ∈ leaves ∧ a < b) ∧
+    (combos2 leaves).length = leaves.length * (leaves.length - 1) / 2 :=
+  ⟨(combos2_sorted hs).1, (combos2_sorted hs).2, length_combos2 leaves⟩
+
+example : combos2 [0, 1, 2, 3] = [(0, 1), (0, 2), (0, 3), (1, 2), (1, 3), (2, 3)] := by decide
+
 /-! ### no spurious failure (what the fixed D6 / n_valid defects were about) -/
 
 /-- "for all reference statistics …, all threshold settings with each strict threshold above its
